@@ -23,6 +23,15 @@ type Env struct {
 	paramsEntry bool
 	pkg         string
 	noLocals    bool
+	qwf         *[]Term // well-formedness facts of heap reads that mention bound variables
+	live        *State  // state that receives facts discovered during evaluation (defaults to st)
+}
+
+func (e *Env) liveState() *State {
+	if e.live != nil {
+		return e.live
+	}
+	return e.st
 }
 
 type nilMarker struct{}
@@ -432,6 +441,24 @@ func (x *Exec) evalBinary(env *Env, c *Clause, e *Expr) (SymVal, types.Type) {
 	return nil, nil
 }
 
+// heapReadWF records the type invariant of a reference read from the heap in a
+// specification: unconditionally when the term is ground, as a quantifier antecedent otherwise.
+func (x *Exec) heapReadWF(env *Env, v Term, t types.Type, key string) {
+	switch types.Unalias(t).Underlying().(type) {
+	case *types.Pointer, *types.Chan, *types.Map, *types.Slice, *types.Interface:
+	default:
+		return
+	}
+	wf := x.D.WF(v, t, x.topOf(env.st, key), 0)
+	if strings.Contains(v.S, "q!") || strings.Contains(v.S, "lv!") {
+		if env.qwf != nil {
+			*env.qwf = append(*env.qwf, wf)
+		}
+		return
+	}
+	env.liveState().Assume(wf)
+}
+
 // fieldPath resolves a (possibly promoted) field of t.
 func fieldPath(t types.Type, name string) ([]int, *types.Var) {
 	obj, idx, _ := types.LookupFieldOrMethod(t, true, nil, name)
@@ -471,6 +498,7 @@ func (x *Exec) evalSel(env *Env, c *Clause, e *Expr) (SymVal, types.Type) {
 			k, f := x.fieldHeapKey(st, i)
 			cur = Select(x.heap(env.st, k), cur)
 			ct = f.typ
+			x.heapReadWF(env, cur, ct, k)
 			continue
 		}
 		si := x.D.StructInfo(ct)
@@ -490,7 +518,9 @@ func (x *Exec) evalIndex(env *Env, c *Clause, e *Expr) (SymVal, types.Type) {
 		switch u := types.Unalias(bt).Underlying().(type) {
 		case *types.Slice:
 			k := x.elemHeapKey(u.Elem())
-			return Select(Select(x.heap(env.st, k), SlBase(b)), SlIdx(b, i)), u.Elem()
+			ev := Select(Select(x.heap(env.st, k), SlBase(b)), SlIdx(b, i))
+			x.heapReadWF(env, ev, u.Elem(), k)
+			return ev, u.Elem()
 		case *types.Map:
 			_, vk, _ := x.mapHeapKeys(u)
 			return Select(Select(x.heap(env.st, vk), b), i), u.Elem()
@@ -543,10 +573,27 @@ func (x *Exec) quant(env *Env, c *Clause, e *Expr, forall bool) (SymVal, types.T
 		body = e.Args[1]
 	}
 	env2.binds[name] = Bound{V: qv, T: gt}
+	var wfs []Term
+	env2.qwf = &wfs
 	bv, _ := x.eval(env2, c, body)
 	bt, ok := bv.(Term)
 	if !ok || bt.Sort != SBool {
 		x.specFail(c, "quantifier body must be boolean")
+	}
+	// heap values read under the quantifier are well-formed: stated as separate closed facts
+	for _, w := range wfs {
+		if strings.Contains(w.S, qv.S) {
+			w = mk(SBool, fmt.Sprintf("(forall ((%s %s)) %s)", qv.S, sort, Implies(guard, w).S))
+		}
+		if strings.Contains(w.S, "q!") && strings.Contains(strings.ReplaceAll(w.S, qv.S, ""), "q!") && env.qwf != nil {
+			*env.qwf = append(*env.qwf, w)
+			continue
+		}
+		if env.qwf != nil && (strings.Contains(strings.ReplaceAll(w.S, qv.S, ""), "q!")) {
+			*env.qwf = append(*env.qwf, w)
+			continue
+		}
+		env.liveState().Assume(w)
 	}
 	if forall {
 		return mk(SBool, fmt.Sprintf("(forall ((%s %s)) %s)", qv.S, sort, Implies(guard, bt).S)), types.Typ[types.Bool]
@@ -591,6 +638,7 @@ func (x *Exec) evalCall(env *Env, c *Clause, e *Expr) (SymVal, types.Type) {
 	case "old":
 		need(1)
 		env2 := env.child()
+		env2.live = env.liveState()
 		env2.st = env.old
 		env2.paramsEntry = true
 		return x.eval(env2, c, e.Args[0])
@@ -653,6 +701,9 @@ func (x *Exec) evalCall(env *Env, c *Clause, e *Expr) (SymVal, types.Type) {
 			x.specFail(c, "row of non-slice")
 		}
 		return Select(x.heap(env.st, x.elemHeapKey(u.Elem())), SlBase(tv)), nil
+	case "sidx":
+		need(2)
+		return SlIdx(argT(0), argT(1)), intT
 	case "base":
 		need(1)
 		return SlBase(argT(0)), intT
@@ -813,6 +864,7 @@ func (x *Exec) specInline(env *Env, c *Clause, f *ssa.Function, args []SymVal) (
 		x.specFail(c, "call(): %s must have exactly one result", f.Name())
 	}
 	x.Inlined[x.P.ShortName(f)+" (in spec)"] = true
+	live := env.liveState()
 	base := env.st.assume
 	sub := env.st.clone()
 	sub.fr = &Frame{fn: f, vals: map[ssa.Value]SymVal{}, locals: map[*ssa.Alloc]Term{}, blk: f.Blocks[0]}
@@ -841,13 +893,13 @@ func (x *Exec) specInline(env *Env, c *Clause, f *ssa.Function, args []SymVal) (
 	x.wantNoPanic = saveNP
 	for _, p := range prs {
 		for _, f := range p.facts {
-			env.st.assume = env.st.assume.push(f, false)
+			live.assume = live.assume.push(f, false)
 		}
 		var guard []Term
 		for _, g := range p.restr {
 			guard = append(guard, mk(SBool, g))
 		}
-		env.st.Assume(Implies(And(guard...), Eq(r, p.res)))
+		live.Assume(Implies(And(guard...), Eq(r, p.res)))
 	}
 	return r, rs.At(0).Type()
 }
